@@ -13,10 +13,13 @@ BREAKING = {
     "number-mask": (S7, "value |= (first_byte & (mask - 1)) << (i * 8)", "value |= (first_byte & mask) << (i * 8)"),
     "folder-cursor-off-by-one": (S7, "if file_in_folder >= self._folders[folder_idx].num_streams:", "if file_in_folder > self._folders[folder_idx].num_streams:"),
     "member-offset": (S7, "            offset += file_info.uncompressed\n", "            offset += file_info.uncompressed + 1\n"),
-    "zip-name-basename-swapped": (A, "                    yield from _process_archive_entry(\n                        filename, file_data, archive_path, basename\n                    )\n\n                except RuntimeError",
-                                  "                    yield from _process_archive_entry(\n                        basename, file_data, archive_path, filename\n                    )\n\n                except RuntimeError"),
+    "zip-name-basename-swapped": (A, "                    yield from _process_archive_entry(\n                        filename, file_data, archive_path, basename\n                    )\n\n                except NotImplementedError",
+                                  "                    yield from _process_archive_entry(\n                        basename, file_data, archive_path, filename\n                    )\n\n                except NotImplementedError"),
     "member-path-separator": (A, 'full_path = f"{archive_path}!/{filename}" if archive_path else filename', 'full_path = f"{archive_path}/{filename}" if archive_path else filename'),
     "tar-mode": (A, "file_like, path, f\"r:{archive_type.split('.')[-1]}\"", "file_like, path, f\"r:{archive_type}\""),
+    "pack-digests-skip-undefined": (S7, "            defined = self._read_boolean_vector(num_pack_streams, check_defined=True)\n            for is_defined in defined:\n                if is_defined:\n                    self._read_uint32()",
+                                    "            defined = self._read_boolean_vector(num_pack_streams, check_defined=True)\n            for is_defined in defined:\n                self._read_uint32()"),
+    "bitvector-lsb-first": (S7, "                mask = 0x80\n", "                mask = 0x01\n"),
     "tar-stop-after-failed-member": (A, "                    logger.warning(\"Failed to extract %s from TAR: %s\", filename, e)", "                    break"),
 }
 HARMLESS = {
